@@ -42,4 +42,45 @@ def runTicks : Nat → QState → Except Err (List Cell × QState)
       | .error e => .error e
       | .ok (cs, s'') => .ok (c :: cs, s'')
 
+/-! ### Flag-indexed timeline: `pop_buffer(n, decrement=...)`
+
+The same per-sample step with the flag `dec` of the request in force at that sample instant:
+`dec = true` is `tick` (next_trial decrements the counter), `dec = false` uses `nextTrialND`
+(no counter changes, no key leaves the ordering). A *decrement schedule* is the list of the flags
+in force at consecutive sample instants; `runSched` plays one sample per element. -/
+
+def nextTrialD (dec : Bool) (s : QState) : Except Err (Option QState) :=
+  if dec then nextTrial s else nextTrialND s
+
+def afterSourceD (dec : Bool) (s : QState) : Except Err (Cell × QState) :=
+  if s.delaySamples > 0 then .ok (Cell.Z, bump { s with delaySamples := s.delaySamples - 1 })
+  else match nextTrialD dec s with
+    | .error e => .error e
+    | .ok none => .ok (Cell.Z, bump { s with empty := true })
+    | .ok (some s') =>
+      match s'.source with
+      | some src => if src.off < src.len then .ok (emitSrc s' src) else .error .fuel
+      | none => .error .fuel
+
+def tickD (dec : Bool) (s : QState) : Except Err (Cell × QState) :=
+  if s.paused then .ok (Cell.Z, bump s)
+  else match s.source with
+    | some src => if src.off < src.len then .ok (emitSrc s src) else afterSourceD dec { s with source := none }
+    | none => afterSourceD dec s
+
+/-- one `tickD d` per element `d` of the schedule -/
+def runSched : List Bool → QState → Except Err (List Cell × QState)
+  | [], s => .ok ([], s)
+  | d :: ds, s =>
+    match tickD d s with
+    | .error e => .error e
+    | .ok (c, s') =>
+      match runSched ds s' with
+      | .error e => .error e
+      | .ok (cs, s'') => .ok (c :: cs, s'')
+
+/-- `n` samples with the same flag -/
+def runTicksD (dec : Bool) (n : Nat) (s : QState) : Except Err (List Cell × QState) :=
+  runSched (List.replicate n dec) s
+
 end Psi.Queue
